@@ -358,7 +358,7 @@ theorem add_modf {x : ℚ} (hx : rnd x = some x) (h0 : 0 ≤ x) : FV.add rnd (ip
 /-- `while (ip >= base)`: at most `N` passes when the value is below `10 * 8^N` -/
 theorem normDown_total : ∀ (N fuel : ℕ) (x : ℚ) (k : ℕ), N ≤ fuel → rnd x = some x → 0 ≤ x → x < 10 * 8 ^ N →
     k + N ≤ 2 ^ 53 →
-    ∃ (x' : ℚ) (j : ℕ), j ≤ N ∧ rnd x' = some x' ∧ 0 ≤ x' ∧ x' < 10 ∧ (j = 0 → x' = x) ∧ (0 < x → 0 < x') ∧
+    ∃ (x' : ℚ) (j : ℕ), j ≤ N ∧ rnd x' = some x' ∧ 0 ≤ x' ∧ x' < 10 ∧ (j = 0 → x' = x) ∧ (0 < j → 7 / 8 ≤ x') ∧
       normDown (arithP rnd p) fuel (ipOf x) (fpOf x) (epv k) = .ok (ipOf x', fpOf x', epv ((k + j : ℕ) : ℤ)) := by
   intro N
   induction N with
@@ -368,7 +368,7 @@ theorem normDown_total : ∀ (N fuel : ℕ) (x : ℚ) (k : ℕ), N ≤ fuel → 
       rw [ten_eq L p]; simp only [arithP_ge, ipOf, ge_fin, FV.sval, Bool.false_eq_true, if_false]
       have := (flr_ge_iff x 10).not.mpr (by push_cast; linarith)
       simpa using this
-    refine ⟨x, 0, le_refl _, hx, h0, by linarith, fun _ => rfl, fun h => h, ?_⟩
+    refine ⟨x, 0, le_refl _, hx, h0, by linarith, fun _ => rfl, fun h => absurd h (lt_irrefl _), ?_⟩
     cases fuel <;> simp [normDown, hge]
   | succ N ih =>
     intro fuel x k hf hx h0 hlt hk
@@ -377,7 +377,7 @@ theorem normDown_total : ∀ (N fuel : ℕ) (x : ℚ) (k : ℕ), N ≤ fuel → 
         rw [ten_eq L p]; simp only [arithP_ge, ipOf, ge_fin, FV.sval, Bool.false_eq_true, if_false]
         have := (flr_ge_iff x 10).not.mpr (by push_cast; linarith)
         simpa using this
-      refine ⟨x, 0, Nat.zero_le _, hx, h0, h10, fun _ => rfl, fun h => h, ?_⟩
+      refine ⟨x, 0, Nat.zero_le _, hx, h0, h10, fun _ => rfl, fun h => absurd h (lt_irrefl _), ?_⟩
       cases fuel <;> simp [normDown, hge]
     · have h10' : 10 ≤ x := not_lt.mp h10
       have hge : (arithP rnd p).ge (ipOf x) (arithP rnd p).ten = true := by
@@ -397,7 +397,7 @@ theorem normDown_total : ∀ (N fuel : ℕ) (x : ℚ) (k : ℕ), N ≤ fuel → 
         · have := L.hd; linarith
       rw [abs_le] at hrel
       have hwle : w ≤ x / 8 := by linarith [hrel.2]
-      have hwpos : 0 < w := by linarith [hrel.1]
+      have hwpos : 7 / 8 ≤ w := by linarith [hrel.1]
       have hstep : (arithP rnd p).modf ((arithP rnd p).div ((arithP rnd p).add (ipOf x) (fpOf x)) (arithP rnd p).ten)
           = (fpOf w, ipOf w) := by
         rw [ten_eq L p]; simp only [arithP_modf, arithP_div, arithP_add]
@@ -408,10 +408,13 @@ theorem normDown_total : ∀ (N fuel : ℕ) (x : ℚ) (k : ℕ), N ≤ fuel → 
         have e1 : epv 1 = .fin false 1 := by simp [epv]
         rw [e1] at this
         rw [this]; push_cast; rfl
-      obtain ⟨x', j, hj, hx', h0', hlt', _, hpos', hrun⟩ := ih f w (k + 1) (by omega) hww hw0
+      obtain ⟨x', j, hj, hx', h0', hlt', hj0, hpos', hrun⟩ := ih f w (k + 1) (by omega) hww hw0
         (by have : (8:ℚ) ^ (N + 1) = 8 * 8 ^ N := by ring
             rw [this] at hlt; linarith) (by omega)
-      refine ⟨x', j + 1, by omega, hx', h0', hlt', by omega, fun _ => hpos' hwpos, ?_⟩
+      refine ⟨x', j + 1, by omega, hx', h0', hlt', by omega, fun _ => ?_, ?_⟩
+      · rcases Nat.eq_zero_or_pos j with hj' | hj'
+        · rw [hj0 hj']; exact hwpos
+        · exact hpos' hj'
       simp only [normDown, hge, if_true, hstep, hep]
       rw [hrun]
       have : ((k + 1 + j : ℕ) : ℤ) = ((k + (j + 1) : ℕ) : ℤ) := by push_cast; ring
